@@ -139,7 +139,9 @@ CLAIMED['C18'] = dict(
          "are the same element of the BTreeSet exactly when their paths are equal, whatever their kind and edition - which is what makes each file be "
          "passed once; (3) get_targets_root_only over a harness `cargo metadata` result (1..2, thorough 3 packages of two targets, path values uninterpreted, "
          "working directory / its Cargo.toml / workspace root symbolic, the real filter/flat_map/collect closures): the package cargo picks for the working "
-         "directory gets all its targets. The recursive and hit-list selections and the argument vectors are outside this technique.",
+         "directory gets all its targets; (4) get_targets_recursive (`--all`) over a harness result of 1 (thorough 2) packages with one dependency each: every "
+         "listed package's targets are added, and a dependency is entered exactly when it has a path, was not visited, its Cargo.toml exists and is not the "
+         "manifest of a listed package. The hit-list selection and the argument vectors are outside this technique.",
     note="Known finding (open): from a strict subdirectory of a member of a multi-package workspace no target is selected. "
          "Level other. Trusted: MIR printer, mirsym under-constrained mode, std contract success() <=> code() == Some(0), uninterpreted Command building, "
          "PathBuf comparison as equality / total order on uninterpreted values, edition grouping supplied by the harness. Replay: the real cargo-fmt in a "
